@@ -298,7 +298,12 @@ class C08(Check):
                     else:
                         out = ("other", f"{type(e).__name__}: {str(e)[:80]}")
                 t1 = loop.time()
-                rec.rec("step_end", name=name, out=out[0], detail=out[1] if not isinstance(out[1], (bytes, bytearray)) else bytes(out[1]))
+                det = out[1]
+                if isinstance(det, (bytes, bytearray)):
+                    det = bytes(det)
+                elif not isinstance(det, (str, int, float, bool, type(None))):
+                    det = type(det).__name__
+                rec.rec("step_end", name=name, out=out[0], detail=det)
                 steps.append({"name": name, "t0": t0, "t1": t1, "out": out[0], "val": out[1], "bound": bound})
                 return out
 
